@@ -15,7 +15,7 @@ func init() {
 			mk("D1-writers-full-queue", 8, "2", 60), mk("D2-wait-vs-close", 4, "2", 60), mk("D2b-close-then-wait", 4, "2", 60), mk("D3-readers", 8, "2", 60), mk("D4-loading", 6, "2", 60), mk("D5-hybrid", 6, "2", 60), mk("D6-close-close", 6, "2", 60),
 		},
 		Thorough: []Scenario{
-			mk("D1-writers-full-queue", 16, "3", 900), mk("D1b-three-writers", 16, "2", 900), mk("D2-wait-vs-close", 16, "3", 900), mk("D2b-close-then-wait", 16, "3", 900), mk("D3-readers", 16, "3", 900), mk("D4-loading", 16, "3", 900), mk("D5-hybrid", 16, "3", 900), mk("D6-close-close", 16, "3", 900),
+			mk("D1-writers-full-queue", 16, "3", 900), mk("D1b-three-writers", 16, "2", 900), mk("D2-wait-vs-close", 16, "3", 900), mk("D2b-close-then-wait", 16, "3", 900), mk("D3-readers", 16, "3", 900), mk("D4-loading", 16, "3", 900), mk("D5-hybrid", 16, "3", 900), mk("D5b-hybrid-2workers", 16, "2", 900), mk("D6-close-close", 16, "3", 900),
 		},
 	})
 }
